@@ -424,6 +424,37 @@ func checkCmd(args []string) int {
 			conditional[r.vc.Name] = badPre[r.vc.Fn]
 		}
 	}
+	// a declared invariant whose own obligations are not all discharged supports nothing: the postconditions of the
+	// same function that rest on it (all of them for an ungrouped invariant, those that switch its group on otherwise)
+	// are conditional
+	{
+		badInv := map[string]map[string]string{} // function -> group ("-" ungrouped) -> failing obligation
+		for _, r := range results {
+			if r.vc.InvOf != "" && r.res.Status != "unsat" {
+				if badInv[r.vc.Fn] == nil {
+					badInv[r.vc.Fn] = map[string]string{}
+				}
+				if badInv[r.vc.Fn][r.vc.InvOf] == "" {
+					badInv[r.vc.Fn][r.vc.InvOf] = r.vc.Name
+				}
+			}
+		}
+		for _, r := range results {
+			if r.vc.Kind != "post" || r.res.Status != "unsat" || badInv[r.vc.Fn] == nil || conditional[r.vc.Name] != "" {
+				continue
+			}
+			if b := badInv[r.vc.Fn]["-"]; b != "" {
+				conditional[r.vc.Name] = b
+				continue
+			}
+			for _, u := range r.vc.Uses {
+				if b := badInv[r.vc.Fn][u]; b != "" {
+					conditional[r.vc.Name] = b
+					break
+				}
+			}
+		}
+	}
 	for changed := true; changed; {
 		changed = false
 		for _, r := range results {
@@ -708,6 +739,30 @@ func condForBaseline(results []vcResult, r vcResult) bool {
 	recorded := map[string]bool{}
 	for _, f := range loadFindings() {
 		recorded[stripTag(f.Obligation)] = true
+	}
+	{
+		badInv := map[string]map[string]bool{}
+		for _, x := range results {
+			if x.vc.InvOf != "" && x.res.Status != "unsat" {
+				if badInv[x.vc.Fn] == nil {
+					badInv[x.vc.Fn] = map[string]bool{}
+				}
+				badInv[x.vc.Fn][x.vc.InvOf] = true
+			}
+		}
+		for _, x := range results {
+			if x.vc.Kind != "post" || x.res.Status != "unsat" || badInv[x.vc.Fn] == nil {
+				continue
+			}
+			if badInv[x.vc.Fn]["-"] {
+				cond[x.vc.Name] = true
+			}
+			for _, u := range x.vc.Uses {
+				if badInv[x.vc.Fn][u] {
+					cond[x.vc.Name] = true
+				}
+			}
+		}
 	}
 	for changed := true; changed; {
 		changed = false
